@@ -62,6 +62,37 @@ def position_capture(stmt):
     return None
 
 
+def whole_file_write_truncates_rule(ctx, crates, pid, floor):
+    """a function that writes a whole file opens its destination truncating: `File::create` (counted as the discharged form) or an
+    OpenOptions chain with truncate/append/create_new.  `OpenOptions.write(true)` without them leaves the tail of a longer previous
+    file in place — the file on disk is then not what was serialised.  read+write chains are in-place editors, not whole-file
+    writers, and are counted but not judged."""
+    R = ctx.rule("%s.whole-file-writes-truncate" % pid, "every OpenOptions chain that opens for writing (and not for reading) sets truncate, append or create_new", floor=floor)
+    for c in crates:
+        for f in c.fn_list:
+            if not f.hir or "::tests::" in f.path or "::test" in f.path:
+                continue
+            for x in hirq.walk(f.hir["body"]):
+                if x.get("k") == "call" and re.search(r"fs::File::create(_new|_buffered)?$", x.get("fn") or ""):
+                    ctx.ok(R, {"fn": f.path.split("::")[-1], "line": x.get("ln"), "open": "File::create"}) if len(ctx.samples) < 200 else (ctx.rules[R].__setitem__("obligations", ctx.rules[R]["obligations"] + 1), ctx.rules[R].__setitem__("discharged", ctx.rules[R]["discharged"] + 1))
+                if not (x.get("k") == "mcall" and x["m"] == "open" and "OpenOptions" in (x.get("fn") or "")):
+                    continue
+                opts = {}
+                cur = hirq.strip(x["recv"])
+                while cur is not None and cur.get("k") == "mcall":
+                    if cur.get("args"):
+                        opts.setdefault(cur["m"], hirq.render(cur["args"][0]))
+                    cur = hirq.strip(cur["recv"])
+                if cur is None or "OpenOptions::new" not in hirq.render(cur):
+                    continue          # options built elsewhere: not decidable here, not judged
+                inst = {"fn": f.path.split("::")[-1], "line": x.get("ln"), "options": opts}
+                if opts.get("write") != "true" or opts.get("read") == "true" or any(opts.get(k_) == "true" for k_ in ("truncate", "append", "create_new")):
+                    ctx.ok(R, inst)
+                else:
+                    ctx.bad(R, "%s|open-for-write-without-truncate" % f.path.split("::")[-1], "%s:%d" % (f.file, x.get("ln") or 0), "destination opened with %s: neither truncated nor appended to" % opts,
+                            "saving over a longer existing file leaves its tail behind the new content: the file is no longer exactly what was serialised (stale trailing chunks are parsed back)")
+
+
 def run(ctx):
     prog = ctx.prog
     adt = prog.crate("wow_adt")
@@ -70,6 +101,37 @@ def run(ctx):
     R_frame = ctx.rule("C14.size-derived-from-positions", "write_chunk computes the chunk size as the difference of two stream positions and back-patches it", floor=1)
     R_ofs = ctx.rule("C14.mcnk-offset-field-mapping", "each MCNK header offset field is set right before the sub-chunk the parser locates through that same field", floor=4)
     R_dual = ctx.rule("C14.binrw-no-one-sided-directive", "types deriving BinRead and BinWrite have no read-only or write-only layout directive", floor=20)
+
+    whole_file_write_truncates_rule(ctx, prog.all_workspace(), "C14", floor=10)
+
+    # the four vertex-format arms of the MH2O parser walk the same (x_offset..=x_offset+width) x (y_offset..=y_offset+height)
+    # rectangle the instance declares (and the writer emits): the bounds they compute agree arm by arm, and the x bound is made
+    # of the x quantities, the z bound of the y quantities
+    R_grid = ctx.rule("C14.mh2o-format-arms-walk-the-same-rectangle", "in parse_mh2o_chunk every vertex-format arm computes the same x_end / z_end, x_end from x_offset and width, z_end from y_offset and height", floor=2)
+    pm = next((f_ for f_ in adt.fn_list if f_.hir and f_.kind != "Closure" and norm(f_.path).endswith("root_parser::parse_mh2o_chunk")), None)
+    if pm is None:
+        ctx.bad(R_grid, "parse_mh2o_chunk|missing", "-", "function not found", "anchor gone")
+    else:
+        ctx.saw_fn(pm)
+        for m_ in hirq.find(pm.hir["body"], "match"):
+            per = {}
+            for a_ in m_["arms"]:
+                for l_ in hirq.find(a_["body"], "let"):
+                    if l_["pat"].get("k") == "bind" and l_.get("init") is not None and re.fullmatch(r"[xyz]_(end|start)", l_["pat"]["name"]):
+                        per.setdefault(l_["pat"]["name"], []).append((hirq.render(l_["init"]), l_.get("ln")))
+            for nm, defs in sorted(per.items()):
+                if len(defs) < 2:
+                    continue
+                forms = sorted({d_[0] for d_ in defs})
+                want = ("x_offset", "width") if nm.startswith("x") else ("y_offset", "height")
+                other = ("y_offset", "height") if nm.startswith("x") else ("x_offset", "width")
+                wrong = [d_ for d_ in defs if not all(w_ in d_[0] for w_ in want) or any(o_ in d_[0] for o_ in other)]
+                if len(forms) > 1 or wrong:
+                    d_ = (wrong or [d for d in defs if d[0] != max(forms, key=lambda fr: sum(1 for q in defs if q[0] == fr))])[0]
+                    ctx.bad(R_grid, "parse_mh2o_chunk|%s" % nm, "%s:%d" % (pm.file, d_[1] or 0), "`%s = %s` in one vertex-format arm; the other arms use `%s`" % (nm, d_[0][:70], max(forms, key=lambda fr: sum(1 for q in defs if q[0] == fr))[:70]),
+                            "a non-square liquid instance in that vertex format is read with the wrong row length: vertices are lost or read past the block, and re-serialising changes the file")
+                else:
+                    ctx.ok(R_grid, {"bound": nm, "arms": len(defs), "form": forms[0][:70]})
 
     # tracked stream cursors never go stale (typestate over the MIR CFG)
     from .. import cursor as _cursor
